@@ -444,7 +444,14 @@ func parseRibEntry(data []byte, family bgp.Family, isAddPath bool, prefix ...bgp
 			mp.Value = []bgp.PathNLRI{{NLRI: prefix[0], ID: e.PathIdentifier}}
 		}
 
-		pLen := p.Len()
+		// The octets the attribute takes in the entry, from its own header
+		// (complete: it was just decoded). Len() is the length of what
+		// Serialize would emit, which for the MP_REACH_NLRI completed above
+		// is not the abbreviated form of RFC 6396 4.3.4.
+		pLen := 3 + int(data[2])
+		if p.GetFlags()&bgp.BGP_ATTR_FLAG_EXTENDED_LENGTH != 0 {
+			pLen = 4 + int(binary.BigEndian.Uint16(data[2:4]))
+		}
 		if pLen > int(attrLen) {
 			return nil, nil, fmt.Errorf("path attribute length %d exceeds remaining attribute length %d", pLen, attrLen)
 		}
